@@ -552,6 +552,21 @@ def uses_adjoint(e):
     return any(uses_adjoint(e[k]) for k in ("a", "b") if isinstance(e.get(k), dict))
 
 
+def has_sum(e):
+    if e["t"] in ("add", "sub"):
+        return True
+    return any(has_sum(e[k]) for k in ("a", "b") if isinstance(e.get(k), dict))
+
+
+def leaf_adj_ok(e):
+    """every `lin` leaf with a hand-written adj_fn returns its declared input dtype (Lean: LeafAdjOk)"""
+    if e["t"] == "lin" and e.get("hasadj"):
+        r = np.result_type(np.dtype(e["gdt"]), np.dtype(e["indt"]))
+        want = r if is_cplx(e["indt"]) else np.zeros((), dtype=r).real.dtype
+        return np.dtype(want) == np.dtype(e["indt"])
+    return all(leaf_adj_ok(e[k]) for k in ("a", "b") if isinstance(e.get(k), dict))
+
+
 def has_nonlin(e):
     if e["t"] == "nonlin":
         return True
@@ -639,6 +654,18 @@ def oracle(env):
                     if w is not None and w != g:
                         fails["view_" + nm] = {"view": e["t"], "operand_declares": [c["in_shape"], c["out_shape"], c["in_dtype"], c["out_dtype"]],
                                                "view_declares": list(got), "expected_" + nm: w}
+        # the adjoint returns the declared input shape and dtype.  Asserted where theorem C12_dtype_sound applies
+        # without conditions the code does not check: no generic sum below (or a dtype-uniform tree), no non-linear
+        # leaf, and hand-written adj_fn of test leaves returning their input dtype (hypothesis LeafAdjOk)
+        if hasattr(o, "adj") and not has_nonlin(e) and leaf_adj_ok(e) and (dtype_uniform(e) or not has_sum(e)) \
+                and not ({"shape", "evaluation_raised"} & set(fails)):
+            try:
+                z = o.adj(env.to_array(np.ones(m), info["out_shape"], info["out_dtype"]))
+            except Exception:  # noqa: BLE001
+                z = None
+            if z is not None and (lst(z.shape) != info["in_shape"] or np.dtype(z.dtype).name != info["in_dtype"]):
+                fails["adjoint_meta"] = {"y": "ones(output_shape, output_dtype)", "declared_input": [info["in_shape"], info["in_dtype"]],
+                                         "adj_returned": [lst(z.shape), np.dtype(z.dtype).name]}
         if info["sizes"] != info["matrix_shape"] or info["matrix_shape"] != [size(info["out_shape"]), size(info["in_shape"])]:
             fails["matrix_shape"] = {"matrix_shape": info["matrix_shape"], "sizes": info["sizes"]}
         if not ({"shape", "evaluation_raised", "matrix_shape"} & set(fails)) and not has_nonlin(e) and (kind_uniform(e) or not uses_adjoint(e)):
